@@ -854,14 +854,19 @@ class Device:
                 else:
                     # If it does match, return it
                     return msg
-            except Empty as err:
+            except Empty:
                 # Queue is empty, wait for a message to show up.
-                if timeout is not None and (time() - start_time > timeout):
-                    if command:
-                        raise WhadDeviceTimeout("WHAD device did not answer to a command") from err
+                pass
 
-                    logger.debug("exiting wait_for_message (timeout: %s)...", timeout)
-                    return None
+            # Evaluate the deadline on every iteration, not only when the queue
+            # is empty: a message that does not match is re-enqueued above and
+            # would otherwise keep this loop alive forever.
+            if timeout is not None and (time() - start_time > timeout):
+                if command:
+                    raise WhadDeviceTimeout("WHAD device did not answer to a command")
+
+                logger.debug("exiting wait_for_message (timeout: %s)...", timeout)
+                return None
 
     def send_message(self, message: HubMessage, keep: Callable[..., bool] = None):
         """
